@@ -105,7 +105,7 @@ def inlinable(prog, f, t):
         return None
     if not str(h.raw.get("vis", "")).startswith("Restricted"):
         return None
-    if (h.name or "") in mentioned_names():
+    if (h.name or "") in mentioned_names() or key in getattr(prog, "_no_inline", ()):
         return None
     if len(t["a"]) != h.argc:
         return None
@@ -141,6 +141,7 @@ def inline_helpers(prog, f, depth=2):
         mir["blocks"][bi]["t"] = {"k": "goto", "t": boff, "sp": call["sp"], "inlined": h.key}
         for hb in h2.blocks:
             nb = _shift_block(hb, k, boff)
+            nb["origin"] = hb.get("origin") or h.key
             if nb["t"]["k"] == "return":
                 nb["s"].append({"k": "assign", "p": dest, "rv": ["use", ["mv", [k]]], "sp": nb["t"]["sp"]})
                 nb["t"] = {"k": "goto", "t": cont, "sp": nb["t"]["sp"]}
